@@ -151,7 +151,8 @@ func famSession(sc *scn.Scenario, em func(vt.Ev)) {
 				j := int(nextTick) % len(ns)
 				ns[j] = vstore.Series{L: ns[j].L, T: append(append([]int64{}, ns[j].T...), sc.Ms(nextTick)), V: append(append([]float64{}, ns[j].V...), scn.Sample{K: "s"}.Val())}
 			case "series":
-				ns = append(ns, vstore.Series{L: labels.FromStrings("__name__", "m", "a", "x", "b", fmt.Sprintf("new%d", nextTick)), T: []int64{sc.Ms(nextTick - 2), sc.Ms(nextTick)}, V: []float64{7, 9}})
+				// the values of a new series are its own (no ties between two new series: topk over tied values may pick either)
+				ns = append(ns, vstore.Series{L: labels.FromStrings("__name__", "m", "a", "x", "b", fmt.Sprintf("new%d", nextTick)), T: []int64{sc.Ms(nextTick - 2), sc.Ms(nextTick)}, V: []float64{float64(1000 + nextTick*7), float64(1003 + nextTick*7)}})
 			case "gap":
 				nextTick += 4
 			}
